@@ -83,7 +83,7 @@ const c05PermSlots = 24
 
 func c05Bases(tier string) int {
 	if tier == "thorough" {
-		return 40
+		return 16
 	}
 	return 6
 }
